@@ -9,7 +9,7 @@ from .c01 import _contracts, _drain, _lib
 
 def plan(tier, seed):
     n, nsh = (16000, 16) if tier == 'quick' else (400000, 16)
-    return [{'part': 'random', 'n': n // nsh, 'shard': sh} for sh in range(nsh)]
+    return [{'part': 'random', 'n': n // nsh, 'shard': sh} for sh in range(nsh)] + [{'part': 'builtins', 'shard': 0}]
 
 
 def meta(tier):
@@ -61,7 +61,46 @@ def make_case(rnd):
     return prog, init, stubs, gen
 
 
+def run_builtins(acc):
+    """A name bound in locals or globals always wins over a built-in expression function - in expression mode through the
+    API and through the data functions called from scripts (host stub, script-defined function, local)."""
+    import bare_script
+    from bare_script.runtime import evaluate_expression
+    from ..refeval import ALIASES
+    for alias in sorted(ALIASES):
+        expr = {'function': {'name': alias, 'args': [{'variable': 'aa'}]}}
+        g_stub = lambda a, o: 'global-wins'  # noqa: E731
+        l_stub = lambda a, o: 'local-wins'  # noqa: E731
+        case = {'alias': alias}
+        acc.case(('builtin-shadow', alias), True)
+        r1 = evaluate_expression(expr, {'globals': {'aa': 1.0, alias: g_stub}}, None, True)
+        r2 = evaluate_expression(expr, {'globals': {'aa': 1.0, alias: g_stub}}, {alias: l_stub}, True)
+        r3 = evaluate_expression(expr, {'globals': {'aa': 1.0}}, {alias: l_stub}, True)
+        if (r1, r2, r3) != ('global-wins', 'local-wins', 'local-wins'):
+            acc.violation('builtin-wins-over-binding', f'{alias}: global->{r1!r} local+global->{r2!r} local->{r3!r}', case)
+            continue
+        # through a script: a host global and a script-defined function shadow the built-in inside data expressions
+        text = (f"dd = arrayNew(objectNew('aa', 5))\ndataCalculatedField(dd, 'r1', '{alias}(aa)')\n"
+                f"r2 = dataFilter(dd, '{alias}(aa) == \\'host-stub\\'')\nreturn arrayNew(objectGet(arrayGet(dd, 0), 'r1'), arrayLength(r2))")
+        res = bare_script.execute_script(bare_script.parse_script(text), {'globals': {alias: lambda a, o: 'host-stub'}})
+        if res != ['host-stub', 1]:
+            acc.violation('builtin-wins-over-host-global-in-data-expression', f'{alias}: {res!r}', case)
+            continue
+        if alias not in ('if',):
+            text2 = (f"function {alias}(xx):\n    return 'script-fn'\nendfunction\ndd = arrayNew(objectNew('aa', 5))\n"
+                     f"dataCalculatedField(dd, 'r1', '{alias}(aa)')\nreturn objectGet(arrayGet(dd, 0), 'r1')")
+            res2 = bare_script.execute_script(bare_script.parse_script(text2), {'globals': {}})
+            if res2 != 'script-fn':
+                acc.violation('builtin-wins-over-script-function-in-data-expression', f'{alias}: {res2!r}', case)
+                continue
+        acc.count('builtin_shadow_checks', 6)
+    acc.sample({'builtin_shadowing': 'global / local / host global in data expression / script function, for each of the 46 aliases'}, limit=1)
+
+
 def run_shard(spec, acc):
+    if spec.get('part') == 'builtins':
+        run_builtins(acc)
+        return
     lib = _lib()
     con = _contracts()
     base = spec['seed'] * 1000003 + spec['shard'] * 7919 + 41
